@@ -350,6 +350,64 @@ fn rt(workers: usize) -> tokio::runtime::Runtime {
         .unwrap()
 }
 
+/// the crate-private request loop of the serial RTU server, driven through a pseudo-terminal:
+/// the harness holds the master side, the server the slave side
+fn serial_server(svc: Vec<Svc>, data: &[u8], expect: usize) -> Option<String> {
+    let (master, path) = open_pty()?;
+    let runtime = rt(2);
+    let key: SocketAddr = "0.0.0.0:0".parse().ok()?;
+    let scripts: Arc<Mutex<HashMap<SocketAddr, VecDeque<Svc>>>> = Default::default();
+    let calls: Arc<Mutex<HashMap<SocketAddr, Vec<String>>>> = Default::default();
+    scripts.lock().unwrap().insert(key, svc.into_iter().collect());
+    let service = LazyService { peer: key, scripts: scripts.clone(), calls: calls.clone() };
+    let (ready_tx, ready_rx) = std::sync::mpsc::channel::<bool>();
+    let server = runtime.spawn(async move {
+        match tokio_serial::SerialStream::open(&tokio_serial::new(path, 115_200)) {
+            Ok(serial) => {
+                let _ = ready_tx.send(true);
+                let _ = tokio_modbus::server::rtu::verif_process(serial, service).await;
+            }
+            Err(_) => {
+                let _ = ready_tx.send(false);
+            }
+        }
+    });
+    // the line is in raw mode only once the server has opened it
+    if !ready_rx.recv_timeout(Duration::from_millis(3000)).ok()? {
+        return None;
+    }
+    let mut m = PtyMaster(master, 3000);
+    let mut seed = 0x9E37_79B9_7F4A_7C15u64 ^ (data.len() as u64);
+    let mut at = 0;
+    while at < data.len() {
+        seed ^= seed << 13;
+        seed ^= seed >> 7;
+        seed ^= seed << 17;
+        let k = (1 + (seed % 9) as usize).min(data.len() - at);
+        m.write_all(&data[at..at + k]).ok()?;
+        at += k;
+        if seed % 3 == 0 {
+            std::thread::sleep(Duration::from_micros(200 + seed % 700));
+        }
+    }
+    let mut got = vec![];
+    let mut buf = [0u8; 4096];
+    while got.len() < expect {
+        match m.read(&mut buf) {
+            Ok(0) | Err(_) => break,
+            Ok(n) => got.extend(&buf[..n]),
+        }
+    }
+    m.1 = 40;
+    if let Ok(n) = m.read(&mut buf) {
+        got.extend(&buf[..n]);
+    }
+    server.abort();
+    runtime.shutdown_timeout(Duration::from_millis(200));
+    let c = calls.lock().unwrap().get(&key).cloned().unwrap_or_default();
+    Some(format!("calls={} out={} peer=ok", if c.is_empty() { "-".to_string() } else { c.join(",") }, hex(&got)))
+}
+
 /// `conc <kind> | svc=… r=d… | svc=… r=d… | …` – one part per concurrent connection
 pub fn conc_op(kind: &str, conns: &[&str]) -> Option<(String, String)> {
     let mut specs: Vec<(Vec<Svc>, Vec<u8>, usize)> = vec![];
@@ -395,6 +453,12 @@ pub fn conc_op(kind: &str, conns: &[&str]) -> Option<(String, String)> {
             }
         }
         specs.push((svc, data, expect));
+    }
+    if kind == "ser" {
+        // the serial RTU server (src/server/rtu.rs) on the slave side of a pty: one "connection"
+        let (svc, data, expect) = specs.first()?.clone();
+        let res = serial_server(svc, &data, expect)?;
+        return Some((format!("conc {kind} | {}", conns.join(" | ")), res));
     }
     let runtime = rt(4);
     let std_listener = StdListener::bind("127.0.0.1:0").ok()?;
